@@ -24,6 +24,7 @@ FAMILIES = {
     'normalize': 'pvf.contracts.layout_norm',
     'context': 'pvf.contracts.context',
     'config': 'pvf.contracts.config',
+    'registry': 'pvf.contracts.registry',
 }
 
 
